@@ -353,6 +353,40 @@ func c19r5(rc *core.RC) {
 			}
 			return true
 		})
+		// the copy-and-assign form: code := *c; code.f = …; return &code
+		copies := map[types.Object]bool{}
+		ast.Inspect(fd.Body, func(m ast.Node) bool {
+			as, ok := m.(*ast.AssignStmt)
+			if !ok || len(as.Lhs) != 1 || len(as.Rhs) != 1 {
+				return true
+			}
+			if st, isStar := core.Unparen(as.Rhs[0]).(*ast.StarExpr); isStar && core.ObjOf(info, st.X) == recv {
+				if o := core.ObjOf(info, as.Lhs[0]); o != nil {
+					copies[o] = true
+				}
+			}
+			return true
+		})
+		ast.Inspect(fd.Body, func(m ast.Node) bool {
+			as, ok := m.(*ast.AssignStmt)
+			if !ok || len(as.Lhs) != len(as.Rhs) {
+				return true
+			}
+			for i, l := range as.Lhs {
+				sel, isSel := core.Unparen(l).(*ast.SelectorExpr)
+				if !isSel || !copies[core.ObjOf(info, sel.X)] {
+					continue
+				}
+				k := sel.Sel.Name
+				if rs, isRS := core.Unparen(as.Rhs[i]).(*ast.SelectorExpr); isRS && rs.Sel.Name == k && core.ObjOf(info, rs.X) == recv {
+					continue
+				}
+				if k != "fieldQuery" {
+					changed[k] = true
+				}
+			}
+			return true
+		})
 		if len(changed) == 0 {
 			continue
 		}
